@@ -355,9 +355,13 @@ class ExcelOpxWrapper(ExcelWrapper):
 
             if address.is_unbounded_range:
                 # bound the address range to the data in the spreadsheet
-                bounded = address & AddressRange(
-                    (1, 1, *self.max_col_row(sheet.title)),
-                    sheet=sheet.title)
+                used_area = (1, 1, *self.max_col_row(sheet.title))
+                if used_area[:2] == used_area[2:]:
+                    # the used area is a single cell
+                    used_area = AddressCell(used_area, sheet=sheet.title)
+                else:
+                    used_area = AddressRange(used_area, sheet=sheet.title)
+                bounded = address & used_area
                 if not is_address(bounded):
                     # outside of the used area, there is only empty cells
                     bounded = AddressCell(
